@@ -1049,7 +1049,10 @@ def prepare(farm, batch_seed, tier, cfg, harness_errors):
                                          "per_file": {f: "%d/%d" % tuple(v) for f, v in sorted(per.items())}}
     ctx = {"pristine": table, "mutation_targets": targets}
     if cfg.get("cold_check"):
-        cold_check({k: v for k, v in table.items() if "@" not in k}, harness_errors)
+        PREP_INFO["batch_seed"] = batch_seed
+        ncold = cold_check({k: v for k, v in table.items() if "@" not in k}, harness_errors, sample=cfg.get("cold_sample", 800))
+        PREP_INFO["cold_interpreter_cross_check"] = {"templates_sampled": min(cfg.get("cold_sample", 800), sum(1 for k in table if "@" not in k)),
+                                                     "executed_and_compared": ncold}
     return ctx
 
 
@@ -1083,8 +1086,11 @@ def cold_check(table, harness_errors, sample=None):
 
     main = os.path.join(os.path.dirname(os.path.abspath(__file__)), "main.py")
     keys = sorted(table)
-    if sample:
-        keys = keys[:sample]
+    if sample and len(keys) > sample:
+        # an evenly spread subset that rotates with the batch seed (a cold interpreter costs 3 s of import per template)
+        step_ = len(keys) / float(sample)
+        off = (PREP_INFO.get("batch_seed") or 0) % max(1, int(step_))
+        keys = [keys[min(len(keys) - 1, int(i * step_) + off)] for i in range(sample)]
 
     def one(key):
         name, _, s = key.partition("#")
@@ -1109,7 +1115,7 @@ def cold_check(table, harness_errors, sample=None):
                 d = close(a[1], b[1])
             if d:
                 harness_errors.append({"error": "forked-pristine and cold-interpreter outcomes of %s differ: %s" % (key, d)})
-    table["__cold_checked__"] = {"outcome": ["value", n], "N": 0}
+    return n
 
 
 def cold_op(name, seed):
